@@ -108,6 +108,10 @@ def run(ctx):
     r = ctx.sub_rng("gen")
     cases = [L.gen_case(r) for _ in range(ctx.n(1200, 40000))]
     broken = explore(ctx, rep, cases, "main")
+    if not ctx.quick:
+        grid = L.grid_cases()
+        rep.extra["systematic_grid_cases"] = len(grid)
+        broken = explore(ctx, rep, grid, "grid") or broken
     if (broken or any(not o["ok"] for o in rep.obligations)) and not rep.failures:
         r2 = ctx.sub_rng("search")
         explore(ctx, rep, [L.gen_case(r2) for _ in range(ctx.n(3000, 30000))], "search")
